@@ -80,7 +80,8 @@ CLAIMS = {
          "zero derivative at masked pixels; unmasked pixels matter (closed-form differences for Gaussian/Cash/Huber); polarity from the "
          "C18 mask model. Tie: real single/multi/multi-band fitters — stored mask and the set of pixels with non-zero d/d(data) equal the "
          "model's used set; oracle: bit-identical log-density and exactly zero d/d(data,rms) under replacement of data/rms/model at masked "
-         "pixels (huge values and rms=0), finite parameter gradients, non-zero derivatives on unmasked pixels."),
+         "pixels (huge values, rms = 0 and 1e-25, sentinels with gradients), finite parameter gradients, non-zero derivatives on unmasked pixels "
+         "(exact zeros in the data included). parse_mask's polarity rule and default are regenerated facts (repo_mask_polarity, repo_no_mask_all_used)."),
    note=NOTE + "C06: reverse-mode 0·∞ effects are outside the ℝ theorems and are covered by the oracle only (the rms=0 case was a genuine defect, fixed).",
    technique="Lean 4 theorems by induction over pixel lists + fitter-level gradient/used-set correspondence and exact perturbation oracle",
    design="7/C06"),
@@ -93,7 +94,9 @@ CLAIMS = {
          "sources is the sum of the individually rendered sources, the three composites are the sums of their components with fractions "
          "f and 1-f at the same centre and angle, exp/dev are Sersic at n=1/4. Tie: real render_source/render_for_model vs the model image "
          "(float64 1e-9 of the peak, float32 2e-5) on mixed catalogues; the property's float32 identities (5e-6) and jax.linear_transpose "
-         "in flux are run on the real code as the oracle."),
+         "in flux are run on the real code as the oracle. BaseRenderer's scene plumbing (the five composite profiles, render_for_model, "
+         "combine_scene) is additionally TRANSLATED from the source on every run (tools/translate_scene.py) and each translated definition is "
+         "proved equal to the model's (Proofs/GenScene.lean: gen_*_eq)."),
    note=NOTE + "C08: jnp.fft modelled as explicit DFT sums; interpax amplitudes enter as data; float32 identities observed, not proved.",
    technique="Lean 4 theorems (linearity of every renderer/profile/scene over all inputs, induction over catalogues) + render correspondence + float32 identity oracle",
    design="7/C08"),
@@ -153,7 +156,9 @@ CLAIMS = {
          "option settings): observed on the real code with the property's tolerances — outside pixels vs the point-sampled kernel (1e-6) and an "
          "independent float64 formula, inside pixels vs an independent 40-point float64 pixel integration (2e-5, num_os ≥ 3), hybrid vs Fourier "
          "(6e-3; exactly 0 for num_pixel_render = 0), n_sigma 15/20/30 (5e-3), interpolated vs direct amplitudes at tabulated indices (1e-3, float64). "
-         "Tie: render correspondence over the whole option space, including the Lean model of the direct decomposition (use_interp_amps=False)."),
+         "Tie: render correspondence over the whole option space, including the Lean model of the direct decomposition (use_interp_amps=False); "
+         "the index arithmetic that places the oversampled box is regenerated from PixelRenderer.__init__ (int / round-half-even / // with "
+         "their Python meaning) and proved to be the model's box for every image side (repo_pixel_box)."),
    note=NOTE + "C20: leggauss data enter as parameters (Σw = 1 checked on the real data); direct amplitudes compared in float64 only.",
    technique="Lean 4 theorems (box membership by omega, class of each pixel, list partition of the hybrid split, hybrid(0)=Fourier, σ-grid end points) + option-space render correspondence + numerical oracle with the property's tolerances",
    design="7/C20"),
@@ -223,7 +228,7 @@ CLAIMS = {
          "(optimisation quality, outside any model): logp(MAP) ≥ logp(truth) − 0.5, ±2 % single-parameter moves, bitwise repeatability — observed on full-length "
          "real fits of synthetic images. Tie: the real find_MAP (optimiser shortened) over profile / sky / loss / renderer configurations, single and multi: "
          "the real trace's site names filtered and regrouped by the Lean model vs the returned dictionary; returned image vs re-render of the returned "
-         "parameters (1e-3 of the peak)."),
+         "parameters (1e-3 of the peak). Where the guide starts (init_to_median) and the rounding are regenerated facts."),
    note=NOTE + "C13: Adam/ELBO/jit not modelled; optimisation-quality clauses are observations. FitMulti.find_MAP regrouping ignores prior.suffix (observation; the property's multi-source clause is un-suffixed).",
    technique="Lean 4 theorems (kernel-decided key sets over all configurations on a purge chain translated from source; string lemma for *_base; regroup partition) + structural correspondence with the real find_MAP + real-fit oracle",
    design="7/C13"),
